@@ -4,6 +4,14 @@ From Verif Require Import Base.Num Base.Vec C02.Model C02.GenSyntax.
 Import ListNotations.
 Local Open Scope num_scope.
 
+(* which kernel _inner_default runs for a dtype class (real?) and a size regime (> THRESHOLD_MEDIUM?) *)
+Fixpoint ksel (real large : bool) (t : ktree) : kernel :=
+  match t with
+  | KLeaf k => k
+  | KIf KIsReal a b => if real then ksel real large a else ksel real large b
+  | KIf KIsLarge a b => if large then ksel real large a else ksel real large b
+  end.
+
 Section Sem.
 Context {T : Type} `{Num T} `{Root T}.
 
